@@ -574,6 +574,71 @@ func (w *world) scenarioStalePolka() {
 	w.fire(pbft.RoundStepPropose)
 }
 
+// newBadBlock: a well-formed, correctly signed and complete proposal whose content fails
+// ValidateBlock (wrong AppHash).
+func (w *world) newBadBlock(proposer int) *blk {
+	rs := w.rs()
+	st := w.vnode.CS.VerifState()
+	var commit *types.Commit
+	if rs.Height == 1 {
+		commit = &types.Commit{}
+	} else if rs.LastCommit != nil && rs.LastCommit.HasTwoThirdsMajority() {
+		commit = rs.LastCommit.MakeCommit()
+	} else {
+		return nil
+	}
+	b, ps := types.MakeBlock(rs.Height, st.ChainID, []types.Tx{types.Tx(fmt.Sprintf("c04-bad-%d-%d", w.c, w.rng.Intn(1<<30)))}, nil, commit, w.net.Nodes[proposer].Addr,
+		st.LastBlockID, st.Validators.Hash(), []byte("not-the-app-hash-of-this-chain"), st.ReceiptsHash, w.net.Cfg.PartSize)
+	return &blk{id: types.BlockID{Hash: b.Hash(), PartsHeader: ps.Header()}, parts: ps, hex: fmt.Sprintf("%X", b.Hash())}
+}
+
+// scenarioInvalidProposalWhileLocked: V locks B in r0; in r0+1 a complete, correctly signed but
+// invalid block is proposed. V is locked: it must prevote B, whatever the proposal is.
+func (w *world) scenarioInvalidProposalWhileLocked() {
+	rs := w.rs()
+	if rs.Height != w.h || w.failed {
+		return
+	}
+	r0 := rs.Round
+	var B *blk
+	if p := w.proposerAt(r0); p == w.V {
+		w.drain()
+		w.learnOwn()
+		if len(w.blocks) > 0 {
+			B = w.blocks[len(w.blocks)-1]
+		}
+	} else if p >= 0 {
+		if B = w.newBlock(p); B != nil {
+			w.propose(r0, B, true, false)
+		}
+	}
+	if B == nil {
+		return
+	}
+	w.fire(pbft.RoundStepPropose)
+	w.votesFrom(types.VoteTypePrevote, r0, B, 1.0)
+	if r := w.rs(); r.LockedBlock == nil {
+		return
+	}
+	w.moveOn(r0)
+	r1 := r0 + 1
+	if r := w.rs(); r.Height != w.h || r.Round != r1 {
+		return
+	}
+	p1 := w.proposerAt(r1)
+	if p1 < 0 || p1 == w.V {
+		return
+	}
+	X := w.newBadBlock(p1)
+	if X == nil {
+		return
+	}
+	w.log("scenario invalid proposal while locked: B=%.8s X=%.8s", B.hex, X.hex)
+	w.propose(r1, X, true, false)
+	w.fire(pbft.RoundStepPropose)
+	w.stats["scenario_invalid_proposal_while_locked"]++
+}
+
 func (w *world) anyBlock() *blk {
 	if len(w.blocks) == 0 || w.rng.Float64() < 0.15 {
 		return nil
@@ -703,6 +768,9 @@ func runCase(run *lib.Run, c int64, base string) {
 	if c%6 == 3 {
 		w.scenarioStalePolka()
 	}
+	if c%6 == 5 {
+		w.scenarioInvalidProposalWhileLocked()
+	}
 	steps := lib.Pick(120, 200)
 	for s := 0; s < steps && !w.failed; s++ {
 		w.step()
@@ -758,6 +826,7 @@ func main() {
 	run.Require("prevote_other_after_unlock_polka", 5)
 	run.Require("v_commits", 50)
 	run.Require("scenario_stale_polka", 50)
+	run.Require("scenario_invalid_proposal_while_locked", 50)
 	run.Require("scenario_relock_late_polka", 50)
 	os.Exit(run.Finish())
 }
